@@ -34,6 +34,54 @@ Qed.
 Lemma sign_none rand a body : sign rand a body = SNone <-> a = ANone.
 Proof. destruct a; cbn [OutReq.sign]; split; intros H; try discriminate; reflexivity. Qed.
 
+(* ---- one attempt per call, and fresh randoms over every history --------------------- *)
+
+(* whatever happens to the request at the backend, it arrives once: the client does not send it
+   again; every fate but an answer is an error for the caller *)
+Lemma deliver_once s f :
+  fst (deliver s f) = fst (deliver s FAnswered) /\
+  (List.length (fst (deliver s f)) <= 1)%nat /\
+  (forall h, s = SSent h -> fst (deliver s f) = [h]) /\
+  (f <> FAnswered -> snd (deliver s f) = OError).
+Proof.
+  destruct s; destruct f; cbn; repeat split; try lia; try (intros; congruence).
+Qed.
+
+(* the randomness source does not repeat: the 32 bytes it delivers to two different requests differ *)
+Definition never_repeats (rand : nat -> nat -> ascii) : Prop :=
+  forall j k, j <> k -> rand_read (rand j) 32 <> rand_read (rand k) 32.
+
+(* the i-th request of the list, if it leaves, carries the random made of the bytes delivered to request k+i *)
+Fixpoint indexed_by (rand : nat -> nat -> ascii) (k : nat) (ss : list sent) : Prop :=
+  match ss with
+  | [] => True
+  | s :: r => (forall rnd chk, s = SSent (rnd, chk) -> rnd = hex (rand_read (rand k) 32)) /\ indexed_by rand (S k) r
+  end.
+
+Lemma indexed_in rand fates ss : forall k m r,
+  indexed_by rand k ss -> In r (map fst (wire fates m ss)) ->
+  exists j, (k <= j)%nat /\ r = hex (rand_read (rand j) 32).
+Proof.
+  induction ss as [|s rest IH]; intros k m r Hi Hin; [destruct Hin|].
+  destruct Hi as [Hs Hrest]. cbn [wire] in Hin. rewrite map_app in Hin. apply in_app_or in Hin.
+  destruct Hin as [Hin|Hin].
+  - destruct s as [| |[rnd chk]]; cbn in Hin; try contradiction.
+    destruct Hin as [<-|[]]. exists k. split; [lia|]. exact (Hs rnd chk eq_refl).
+  - destruct (IH (S k) (S m) r Hrest Hin) as (j & Hj & ->). exists j. split; [lia|reflexivity].
+Qed.
+
+Lemma indexed_fresh rand fates (Hr : never_repeats rand) ss : forall k m,
+  indexed_by rand k ss -> NoDup (map fst (wire fates m ss)).
+Proof.
+  induction ss as [|s rest IH]; intros k m Hi; [constructor|].
+  destruct Hi as [Hs Hrest]. cbn [wire]. specialize (IH (S k) (S m) Hrest).
+  destruct s as [| |[rnd chk]]; cbn; try exact IH.
+  constructor; [|exact IH].
+  intros Hin. destruct (indexed_in rand fates rest (S k) (S m) rnd Hrest Hin) as (j & Hj & He).
+  rewrite (Hs rnd chk eq_refl) in He. apply hex_inj in He.
+  apply (Hr k j); [lia|exact He].
+Qed.
+
 (* ---- static storage ------------------------------------------------------------ *)
 Lemma orun_app rand ops : forall st k u body,
   orun rand st k (ops ++ [OReq u body]) =
@@ -131,6 +179,47 @@ Lemma out_etcd_removed rand pre u body :
   last (erun_etcd hmac up secret_of rand (pre ++ [EReq u body])) SPanic = SNone.
 Proof.
   intros Hl. rewrite (out_etcd_current rand pre u body), last_last, Hl. reflexivity.
+Qed.
+
+(* ---- every history: the randoms of the requests that arrive are pairwise distinct ---- *)
+Lemma sign_indexed rnd0 a body rnd chk :
+  sign rnd0 a body = SSent (rnd, chk) -> rnd = hex (rand_read rnd0 32).
+Proof. intros H. destruct (sign_sent _ _ _ _ _ H) as (p & _ & _ & _ & Hr & _). exact Hr. Qed.
+
+Lemma orun_indexed rand ops : forall st k, indexed_by rand k (orun rand st k ops).
+Proof.
+  induction ops as [|o r IH]; intros st k; [exact I|].
+  destruct o as [c|u body]; cbn [OutReq.orun]; [apply IH|].
+  split; [|apply IH].
+  intros rnd chk H. destruct st as [s|]; [|discriminate].
+  unfold perform_static in H. exact (sign_indexed _ _ _ _ _ H).
+Qed.
+
+Lemma erun_indexed rand ops : forall st k, indexed_by rand k (erun rand st k ops).
+Proof.
+  induction ops as [|o r IH]; intros st k; [exact I|].
+  destruct o as [e|u body]; cbn [OutReq.erun]; [apply IH|].
+  split; [|apply IH].
+  intros rnd chk H. unfold perform_etcd in H. exact (sign_indexed _ _ _ _ _ H).
+Qed.
+
+Lemma out_static_fresh rand fates c0 ops :
+  never_repeats rand ->
+  NoDup (map fst (wire fates 0 (orun_static hmac up secret_of rand c0 ops))).
+Proof. intros Hr. exact (indexed_fresh rand fates Hr _ 0%nat 0%nat (orun_indexed rand ops _ 0%nat)). Qed.
+
+Lemma out_etcd_fresh rand fates ops :
+  never_repeats rand ->
+  NoDup (map fst (wire fates 0 (erun_etcd hmac up secret_of rand ops))).
+Proof. intros Hr. exact (indexed_fresh rand fates Hr _ 0%nat 0%nat (erun_indexed rand ops _ 0%nat)). Qed.
+
+(* and the number of requests that arrive does not depend on what happens to them *)
+Lemma wire_fates fates1 fates2 ss : forall m1 m2, wire fates1 m1 ss = wire fates2 m2 ss.
+Proof.
+  induction ss as [|s r IH]; intros m1 m2; [reflexivity|].
+  cbn [wire]. rewrite (IH (S m1) (S m2)).
+  destruct (deliver_once s (fates1 m1)) as (E1 & _). destruct (deliver_once s (fates2 m2)) as (E2 & _).
+  rewrite E1, E2. reflexivity.
 Qed.
 
 End OutReqProofs.
